@@ -15,7 +15,10 @@ Engine M: the header parsers `Prover::try_from_bytes` / `Verifier::try_from_byte
 are translated from MIR to bit-vector path conditions with byte slices modelled by
 their length: for ALL input lengths and ALL header values every panic path (slice
 index, `expect`, overflow) is infeasible (cvc5 integer encoding of the bit-vector
-query, z3 bit-blasting as fallback).  Kani cannot compile the Prover harness
+query, z3 bit-blasting as fallback).  The allocation sizes requested by `CompressedCircuit::from_bytes` (with_capacity,
+vec![x; n], counted collect, inflate limit) are bounded by 857*m+30 elements for ALL
+capacities m and ALL integers read from the input (checks/decoder_alloc.py).
+Kani cannot compile the Prover harness
 (internal compiler error) and does not finish the Verifier one, see DESIGN.md.
 """
 import json
@@ -83,6 +86,9 @@ def run(run):
     decoder_lengths.obligations(run)
     from checks import decoder_validity
     decoder_validity.obligations(run)
+    # engine M: allocation sizes of the compressed-circuit decoder for ALL capacities and header values
+    from checks import decoder_alloc
+    decoder_alloc.obligations(run)
     run.add_functions(["Prover::try_from_bytes (header and slicing, MIR)", "Verifier::try_from_bytes (header and "
                        "slicing, MIR)"])
     run.bounds.append("engine M: ALL input lengths (64-bit) and ALL values of the six 8-byte header fields of "
@@ -152,6 +158,7 @@ def run(run):
     run.outside.append("real curve/field arithmetic (contract bodies), inflate/MessagePack of compressed circuits, byte "
                        "strings longer than the bounds, 'usable for proving without panicking', the full "
                        "Prover/Verifier bodies beyond the header (std HashMap label cache is out of CBMC's reach), "
-                       "allocation bounds beyond container-length <= input-length assertions")
+                       "allocation bounds of decoders other than the compressed-circuit one beyond "
+                       "container-length <= input-length assertions")
     run.assumptions.append("contract bodies of the vendored dependency copy under cfg(kani) over-approximate the real "
                            "kernels for panic-freedom; Kani/CBMC/cadical; unwinding assertions on")
